@@ -572,17 +572,22 @@ Proof.
     + rewrite (blank_reg _ (ps_blank1 _ _ _ _ Hps)), (blank_reg _ (ps_blank2 _ _ _ _ Hps)).
       rewrite (blank_label _ (ps_blank1 _ _ _ _ Hps)), (blank_label _ (ps_blank2 _ _ _ _ Hps)). rstep.
   - (* KJumpLinkR *)
-    rstep. eapply get_any_rel; [eassumption| intros nx sa sb Hb Hin' | intros s1 s2 sa sb Hps].
-    + destruct (tok_reg nx) as [r1|]; [repeat rstep|]. apply lift_imm_rel. intros [imm|] Ei.
-      * peek_paren.
+    rstep. eapply peek_any_rel; [eassumption| intros nx m1 m2 Hb Hg1 Hg2 Hm | intros s1 s2 Bs1 Bs2].
+    + destruct (tok_reg nx) as [r1|].
+      { eapply get_known_rel; [exact Hg1|exact Hg2|exact Hm|intros ? ? ?]. repeat rstep. }
+      apply lift_imm_rel. intros [imm|] Ei.
+      * eapply get_known_rel; [exact Hg1|exact Hg2|exact Hm|intros sa sb Hin'].
+        peek_paren.
         -- destruct (is_lparen pk).
            ++ eapply get_known_rel; [exact Hf1|exact Hf2|exact Hl|intros ? ? ?]. repeat rstep.
            ++ repeat rstep.
         -- rewrite (blank_lparen _ Bp1), (blank_lparen _ Bp2). repeat rstep.
-      * destruct (is_lparen nx); repeat rstep.
-    + rewrite (blank_reg _ (ps_blank1 _ _ _ _ Hps)), (blank_reg _ (ps_blank2 _ _ _ _ Hps)).
-      rewrite (lift_res_eq _ _ _ _ (blank_imm _ (ps_blank1 _ _ _ _ Hps))), (lift_res_eq _ _ _ _ (blank_imm _ (ps_blank2 _ _ _ _ Hps))).
-      rewrite (blank_lparen _ (ps_blank1 _ _ _ _ Hps)), (blank_lparen _ (ps_blank2 _ _ _ _ Hps)).
+      * destruct (is_lparen nx).
+        -- eapply get_known_rel; [exact Hg1|exact Hg2|exact Hm|intros ? ? ?]. repeat rstep.
+        -- repeat rstep.
+    + rewrite (blank_reg _ Bs1), (blank_reg _ Bs2).
+      rewrite (lift_res_eq _ _ _ _ (blank_imm _ Bs1)), (lift_res_eq _ _ _ _ (blank_imm _ Bs2)).
+      rewrite (blank_lparen _ Bs1), (blank_lparen _ Bs2).
       repeat rstep.
   - (* KLoad *)
     rstep. eapply get_any_rel; [eassumption| intros nx sa sb Hb Hin' | intros s1 s2 sa sb Hps].
@@ -1379,14 +1384,16 @@ Example expected_got_counterexample :
 Proof. vm_compute. repeat split. intros H. discriminate H. Qed.
 
 (* (iii) H1 is needed: a comment item NOT followed by a newline item (the lexer never produces this).
-   `jalr a0` swallows the next token: the comment in one list, the `nop` in the other. *)
+   The comment stops `add a0, a1` (an error, the rest of the line is skipped); without the comment the
+   `a2` behind it is the third operand.  (Before the jalr fix the example was `jalr a0 #c nop`: the bare
+   `jalr a0` swallowed the next token, the comment in one list, the `nop` in the other.) *)
 Example comment_without_newline_counterexample :
-  match lex_all false (Some 0%N) (lines [«"jalr a0 # c"»; «"nop"»]) with
+  match lex_all false (Some 0%N) (lines [«"add a0, a1 # c"»; «"a2"»]) with
   | Ok items =>
-      let items' := firstn 3 items ++ skipn 4 items in      (* jalr a0 #c nop <NL> *)
+      let items' := firstn 4 items ++ skipn 5 items in      (* add a0 a1 #c a2 <NL> *)
       comments_end_lines items' = false /\ data_ok items' = true /\
       match drv items', drv (squeeze items') with
-      | Ok (n1, _, _), Ok (n2, _, _) => length n1 = 2 /\ length n2 = 1
+      | Ok (n1, _, _), Ok (n2, _, _) => length n1 = 0 /\ length n2 = 1
       | _, _ => False
       end
   | _ => False
@@ -1394,7 +1401,8 @@ Example comment_without_newline_counterexample :
 Proof. vm_compute. repeat split. Qed.
 
 (* ... and "or the comment is the last item" would not do either: at the end of the items `jalr a0 #c`
-   is a node, `jalr a0` is an unexpected end of file (no node, no error) *)
+   is a node (jalr looks at the comment and leaves it), `jalr a0` is an unexpected end of file (no node,
+   no error) *)
 Example comment_last_counterexample :
   match lex_all false (Some 0%N) (lines [«"jalr a0 # c"»]) with
   | Ok items =>
